@@ -31,6 +31,7 @@ def handle (line : String) : String :=
   | "c16witness" :: rest => c16witnessLine (" ".intercalate rest)
   | "bstr" :: rest => bstrLine (" ".intercalate rest)
   | "veneer" :: rest => veneerLine (" ".intercalate rest)
+  | "wt" :: rest => wtLine (" ".intercalate rest)
   | _ => "bad-request"
 
 /-- verbs that need the driver's schema store (IO) -/
